@@ -168,18 +168,18 @@ func (t *simTracer) Extract(format interface{}, carrier interface{}) (opentracin
 	return nil, opentracing.ErrUnsupportedFormat
 }
 
-func (s *simSpan) Finish()                                          {}
-func (s *simSpan) FinishWithOptions(opentracing.FinishOptions)       {}
-func (s *simSpan) Context() opentracing.SpanContext                  { return s.ctx }
-func (s *simSpan) SetOperationName(op string) opentracing.Span       { s.ctx.Op = op; return s }
-func (s *simSpan) SetTag(string, interface{}) opentracing.Span       { return s }
-func (s *simSpan) LogFields(...log.Field)                            {}
-func (s *simSpan) LogKV(...interface{})                              {}
-func (s *simSpan) SetBaggageItem(k, v string) opentracing.Span       { s.ctx.baggage[k] = v; return s }
-func (s *simSpan) BaggageItem(k string) string                       { return s.ctx.baggage[k] }
-func (s *simSpan) Tracer() opentracing.Tracer                        { return s.t }
-func (s *simSpan) LogEvent(string)                                   {}
-func (s *simSpan) LogEventWithPayload(string, interface{})           {}
-func (s *simSpan) Log(opentracing.LogData)                           {}
+func (s *simSpan) Finish()                                     {}
+func (s *simSpan) FinishWithOptions(opentracing.FinishOptions) {}
+func (s *simSpan) Context() opentracing.SpanContext            { return s.ctx }
+func (s *simSpan) SetOperationName(op string) opentracing.Span { s.ctx.Op = op; return s }
+func (s *simSpan) SetTag(string, interface{}) opentracing.Span { return s }
+func (s *simSpan) LogFields(...log.Field)                      {}
+func (s *simSpan) LogKV(...interface{})                        {}
+func (s *simSpan) SetBaggageItem(k, v string) opentracing.Span { s.ctx.baggage[k] = v; return s }
+func (s *simSpan) BaggageItem(k string) string                 { return s.ctx.baggage[k] }
+func (s *simSpan) Tracer() opentracing.Tracer                  { return s.t }
+func (s *simSpan) LogEvent(string)                             {}
+func (s *simSpan) LogEventWithPayload(string, interface{})     {}
+func (s *simSpan) Log(opentracing.LogData)                     {}
 
 var _ = strconv.Itoa
